@@ -6,7 +6,9 @@
 package c09lib
 
 import (
+	"crypto/ecdsa"
 	"encoding/hex"
+	"math/big"
 	"fmt"
 	"sort"
 	"strings"
@@ -32,6 +34,10 @@ import (
 	sdk "github.com/cosmos/cosmos-sdk/types"
 	"github.com/cosmos/cosmos-sdk/types/tx/signing"
 	"github.com/cosmos/cosmos-sdk/x/auth/ante"
+	"github.com/ethereum/go-ethereum/common"
+	ethtypes "github.com/ethereum/go-ethereum/core/types"
+	ethcrypto "github.com/ethereum/go-ethereum/crypto"
+	"github.com/ethereum/go-ethereum/rlp"
 	xauthsigning "github.com/cosmos/cosmos-sdk/x/auth/signing"
 	authtypes "github.com/cosmos/cosmos-sdk/x/auth/types"
 	banktypes "github.com/cosmos/cosmos-sdk/x/bank/types"
@@ -48,7 +54,11 @@ type Acc struct {
 	Priv cryptotypes.PrivKey
 	Addr sdk.AccAddress
 	Num  uint64
+	Eth  bool              // address = the key's Ethereum address (signs raw Ethereum transactions)
+	EC   *ecdsa.PrivateKey // for Eth accounts
 }
+
+const EthChainID = 8789
 
 type Env struct {
 	App     *simapp.SekaiApp
@@ -83,7 +93,35 @@ func NewEnv(nAcc int) (*Env, sdk.Context) {
 		e.Accs = append(e.Accs, a)
 		e.ByAddr[string(addr)] = a.Name
 	}
+	// two Ethereum-style accounts e0, e1: the account address is the key's Ethereum address
+	for i := 0; i < 2; i++ {
+		priv := secp256k1.GenPrivKeyFromSecret([]byte(fmt.Sprintf("c09-eth-account-%d", i)))
+		ec, err := ethcrypto.ToECDSA(priv.Key)
+		if err != nil {
+			panic(err)
+		}
+		addr := sdk.AccAddress(ethcrypto.PubkeyToAddress(ec.PublicKey).Bytes())
+		acc := app.AccountKeeper.NewAccountWithAddress(ctx, addr)
+		app.AccountKeeper.SetAccount(ctx, acc)
+		a := &Acc{Name: fmt.Sprintf("e%d", i), Priv: priv, Addr: addr, Num: acc.GetAccountNumber(), Eth: true, EC: ec}
+		e.Accs = append(e.Accs, a)
+		e.ByAddr[string(addr)] = a.Name
+	}
 	return e, ctx
+}
+
+// RawEth: a signed legacy Ethereum transaction (EIP-155, chain EthChainID) sending value wei to `to`.
+func RawEth(k *ecdsa.PrivateKey, nonce uint64, to common.Address, value *big.Int) []byte {
+	inner := &ethtypes.LegacyTx{Nonce: nonce, To: &to, Value: value, Gas: 21000, GasPrice: big.NewInt(1)}
+	tx, err := ethtypes.SignNewTx(k, ethtypes.NewEIP155Signer(big.NewInt(EthChainID)), inner)
+	if err != nil {
+		panic(err)
+	}
+	bz, err := rlp.EncodeToBytes(tx)
+	if err != nil {
+		panic(err)
+	}
+	return bz
 }
 
 // Stranger returns a deterministic address that has no account yet.
@@ -167,6 +205,16 @@ type Cfg struct {
 	MinVals  uint64
 	PoorMsgs []string
 	MaxSend  uint64
+	Custody  []Cust
+	MinRew   uint64
+}
+
+// Cust: custody record of an account (UsePassword / UseWhiteList / UseLimits off).
+// Custodians < 0: no custodians record at all.
+type Cust struct {
+	Name       string
+	Enabled    bool
+	Custodians int
 }
 
 // Apply writes cfg into the real keepers through ctx.  Returns an error when the network
@@ -194,6 +242,7 @@ func (e *Env) Apply(ctx sdk.Context, c *Cfg) error {
 	p.MaxTxFee = c.MaxFee
 	p.MinValidators = c.MinVals
 	p.PoorNetworkMaxBankSend = c.MaxSend
+	p.MinCustodyReward = c.MinRew
 	if err := app.CustomGovKeeper.SetNetworkProperties(ctx, p); err != nil {
 		return err
 	}
@@ -212,6 +261,23 @@ func (e *Env) Apply(ctx sdk.Context, c *Cfg) error {
 		app.CustomGovKeeper.SetExecutionFee(ctx, govtypes.ExecutionFee{TransactionType: f.Type, ExecutionFee: f.Execution, FailureFee: f.Failure})
 	}
 	app.CustomGovKeeper.SavePoorNetworkMessages(ctx, &govtypes.AllowedMessages{Messages: c.PoorMsgs})
+	// custody records: clear those of the named accounts, then set
+	for _, a := range e.Accs {
+		app.CustodyKeeper.DropCustodyRecord(ctx, a.Addr)
+		app.CustodyKeeper.DropCustodyCustodiansByAddress(ctx, a.Addr)
+		app.CustodyKeeper.DropCustodyPool(ctx, a.Addr)
+	}
+	for _, cu := range c.Custody {
+		addr := e.AddrOf(cu.Name)
+		app.CustodyKeeper.SetCustodyRecord(ctx, custodytypes.CustodyRecord{Address: addr, CustodySettings: &custodytypes.CustodySettings{CustodyEnabled: cu.Enabled}})
+		if cu.Custodians >= 0 {
+			m := map[string]bool{}
+			for i := 0; i < cu.Custodians; i++ {
+				m[sdk.AccAddress(fmt.Sprintf("custodian___________%d", i)).String()] = true
+			}
+			app.CustodyKeeper.AddToCustodyCustodians(ctx, custodytypes.CustodyCustodiansRecord{Address: addr, CustodyCustodians: &custodytypes.CustodyCustodianList{Addresses: m}})
+		}
+	}
 	// validators: the genesis has one; add NVals-1 more
 	have := len(app.CustomStakingKeeper.GetValidatorSet(ctx))
 	for i := have; i < c.NVals; i++ {
@@ -253,7 +319,15 @@ func (e *Env) CfgCoq(c *Cfg) string {
 	}
 	filt := fmt.Sprintf("(mkFilt %s (mkBW %s %s) %s %s %d %s %s %s)", hx.Str(e.Native), strList(c.Black), strList(c.White),
 		hx.B(c.EnBlack), hx.B(c.EnWhite), c.NVals, hx.ZU(c.MinVals), strList(c.PoorMsgs), hx.ZU(c.MaxSend))
-	return fmt.Sprintf("(mkCfg %s %s %s %s %s %s)", filt, hx.List(ts), hx.B(c.Foreign), hx.ZU(c.MinFee), hx.ZU(c.MaxFee), hx.List(ex))
+	var cu []string
+	for _, k := range c.Custody {
+		n := "None"
+		if k.Custodians >= 0 {
+			n = fmt.Sprintf("(Some %d)", k.Custodians)
+		}
+		cu = append(cu, hx.Pair(hx.Str(k.Name), fmt.Sprintf("mkCust %s %s", hx.B(k.Enabled), n)))
+	}
+	return fmt.Sprintf("(mkCfg %s %s %s %s %s %s %s %s)", filt, hx.List(ts), hx.B(c.Foreign), hx.ZU(c.MinFee), hx.ZU(c.MaxFee), hx.List(ex), hx.List(cu), hx.ZU(c.MinRew))
 }
 
 func (c *Cfg) JSON() map[string]interface{} {
@@ -268,7 +342,7 @@ func (c *Cfg) JSON() map[string]interface{} {
 	return map[string]interface{}{"tokens": ts, "blacklist": c.Black, "whitelist": c.White, "enable_blacklist": c.EnBlack,
 		"enable_whitelist": c.EnWhite, "foreign_fees": c.Foreign, "min_tx_fee": fmt.Sprint(c.MinFee), "max_tx_fee": fmt.Sprint(c.MaxFee),
 		"execution_fees": ex, "validators": c.NVals, "min_validators": fmt.Sprint(c.MinVals), "poor_network_msgs": c.PoorMsgs,
-		"poor_network_max_bank_send": fmt.Sprint(c.MaxSend)}
+		"poor_network_max_bank_send": fmt.Sprint(c.MaxSend), "custody": c.Custody, "min_custody_reward": fmt.Sprint(c.MinRew)}
 }
 
 // ---------------------------------------------------------------- messages
@@ -287,13 +361,29 @@ type M struct {
 	Ty     string // for other
 	Fails  bool
 	Mark   string
+	EthAmt int64  // for eth: native amount (value = EthAmt * 10^12 + EthRem wei)
+	EthRem int64
+	Nonce  uint64 // for eth: nonce of the raw transaction (= signed sequence)
+	Forged bool   // for eth: the raw transaction is signed by a key that is not the sender's
 }
 
 func (m M) Type() string {
 	if m.Kind == "other" {
 		return m.Ty
 	}
+	if m.Kind == "eth" {
+		return "ethereum_tx"
+	}
 	return m.Kind
+}
+
+func (e *Env) AccOf(name string) *Acc {
+	for _, a := range e.Accs {
+		if a.Name == name {
+			return a
+		}
+	}
+	return nil
 }
 
 func (e *Env) Build(m M) sdk.Msg {
@@ -307,6 +397,21 @@ func (e *Env) Build(m M) sdk.Msg {
 			outs = append(outs, banktypes.Output{Address: e.AddrOf(o.To).String(), Coins: o.Amt})
 		}
 		return &banktypes.MsgMultiSend{Inputs: []banktypes.Input{{Address: from.String(), Coins: m.Amt}}, Outputs: outs}
+	case "eth":
+		a := e.AccOf(m.From)
+		val := new(big.Int).Add(new(big.Int).Mul(big.NewInt(m.EthAmt), big.NewInt(1000_000_000_000)), big.NewInt(m.EthRem))
+		key := a.EC
+		if m.Forged {
+			fk := secp256k1.GenPrivKeyFromSecret([]byte("c09-forger"))
+			key, _ = ethcrypto.ToECDSA(fk.Key)
+		}
+		data := RawEth(key, m.Nonce, common.BytesToAddress(e.AddrOf(m.To)), val)
+		var etx ethtypes.Transaction
+		hash := ""
+		if rlp.DecodeBytes(data, &etx) == nil {
+			hash = etx.Hash().Hex()
+		}
+		return &tokenstypes.MsgEthereumTx{TxType: "NativeSend", Sender: a.Addr.String(), Hash: hash, Data: data}
 	case "custody_send":
 		return &custodytypes.MsgSend{FromAddress: from.String(), ToAddress: e.AddrOf(m.To).String(), Amount: m.Amt, Password: "", Reward: m.Reward}
 	case "other":
@@ -338,6 +443,8 @@ func (m M) Coq() string {
 		return fmt.Sprintf("MMulti %s %s %s", hx.Str(m.From), CoinsCoq(m.Amt), hx.List(outs))
 	case "custody_send":
 		return fmt.Sprintf("MCustody %s %s %s %s", hx.Str(m.From), hx.Str(m.To), CoinsCoq(m.Amt), CoinsCoq(m.Reward))
+	case "eth":
+		return fmt.Sprintf("MEth %s %s %d", hx.Str(m.From), hx.Str(m.To), m.EthAmt)
 	default:
 		return fmt.Sprintf("MOther %s [%s] %s %s", hx.Str(m.Ty), hx.Str(m.From), hx.B(m.Fails), hx.Str(m.Mark))
 	}
@@ -349,6 +456,14 @@ func (m M) JSON() map[string]interface{} {
 	case "send", "custody_send":
 		j["to"] = m.To
 		j["amount"] = sdk.Coins(m.Amt).String()
+		if m.Kind == "custody_send" {
+			j["reward"] = sdk.Coins(m.Reward).String()
+		}
+	case "eth":
+		j["to"] = m.To
+		j["native_amount"] = m.EthAmt
+		j["wei_remainder"] = m.EthRem
+		j["raw_tx_nonce"] = m.Nonce
 	case "multisend":
 		j["input"] = sdk.Coins(m.Amt).String()
 		var outs []string
@@ -383,6 +498,23 @@ type TxSpec struct {
 	Msgs  []M
 	Seqs  []uint64 // sequence each signer signs with
 	SigOK bool     // false: the first signature is made over a different chain id
+	Payer string   // explicit fee payer ("" = none)
+	NoGas bool     // gas limit 0
+	Grant bool     // a fee granter is named
+}
+
+// SignersOf: message signers in order of first appearance, then the explicit fee payer.
+func SignersOf(t TxSpec) []string {
+	out := Signers(t.Msgs)
+	if t.Payer != "" {
+		for _, s := range out {
+			if s == t.Payer {
+				return out
+			}
+		}
+		out = append(out, t.Payer)
+	}
+	return out
 }
 
 func (t TxSpec) Coq() string {
@@ -394,7 +526,11 @@ func (t TxSpec) Coq() string {
 	for i, s := range t.Seqs {
 		sq[i] = hx.ZU(s)
 	}
-	return fmt.Sprintf("(mkTx %s %s %s %s)", CoinsCoq(t.Fee), hx.List(ms), hx.List(sq), hx.B(t.SigOK))
+	gas := 200000
+	if t.NoGas {
+		gas = 0
+	}
+	return fmt.Sprintf("(mkTx %s %s %s %s %s %d %s)", CoinsCoq(t.Fee), hx.List(ms), hx.List(sq), hx.B(t.SigOK), hx.Str(t.Payer), gas, hx.B(t.Grant))
 }
 
 func (t TxSpec) JSON() map[string]interface{} {
@@ -406,14 +542,25 @@ func (t TxSpec) JSON() map[string]interface{} {
 	for i, c := range t.Fee {
 		fee[i] = c.Amount.String() + c.Denom
 	}
-	return map[string]interface{}{"fee": fee, "msgs": ms, "signed_sequences": t.Seqs, "signature_valid": t.SigOK}
+	return map[string]interface{}{"fee": fee, "msgs": ms, "signed_sequences": t.Seqs, "signature_valid": t.SigOK, "fee_payer": t.Payer, "zero_gas": t.NoGas, "fee_granter_set": t.Grant}
 }
 
 // BuildTx signs t with the signers' keys (SIGN_MODE_DIRECT), chain id chainID.
 func (e *Env) BuildTx(t TxSpec, chainID string) (xauthsigning.Tx, []byte, error) {
 	b := e.TxCfg.NewTxBuilder()
 	var msgs []sdk.Msg
+	sgn := SignersOf(t)
 	for _, m := range t.Msgs {
+		if m.Kind == "eth" { // the raw transaction's nonce is the sequence its signer signs with
+			for i, n := range sgn {
+				if n == m.From && i < len(t.Seqs) {
+					m.Nonce = t.Seqs[i]
+					if i == 0 && !t.SigOK {
+						m.Forged = true
+					}
+				}
+			}
+		}
 		msgs = append(msgs, e.Build(m))
 	}
 	if err := b.SetMsgs(msgs...); err != nil {
@@ -421,7 +568,16 @@ func (e *Env) BuildTx(t TxSpec, chainID string) (xauthsigning.Tx, []byte, error)
 	}
 	b.SetFeeAmount(t.Fee)
 	b.SetGasLimit(200000)
-	names := Signers(t.Msgs)
+	if t.NoGas {
+		b.SetGasLimit(0)
+	}
+	if t.Payer != "" {
+		b.SetFeePayer(e.AddrOf(t.Payer))
+	}
+	if t.Grant {
+		b.SetFeeGranter(e.Accs[0].Addr)
+	}
+	names := SignersOf(t)
 	var accs []*Acc
 	for _, n := range names {
 		for _, a := range e.Accs {
@@ -446,6 +602,11 @@ func (e *Env) BuildTx(t TxSpec, chainID string) (xauthsigning.Tx, []byte, error)
 		cid := chainID
 		if !t.SigOK && i == 0 {
 			cid = chainID + "-forged"
+		}
+		if a.Eth {
+			// the raw Ethereum transaction inside the message is the authentication; the slot carries filler
+			sigs = append(sigs, signing.SignatureV2{PubKey: a.Priv.PubKey(), Data: &signing.SingleSignatureData{SignMode: mode, Signature: make([]byte, 65)}, Sequence: t.Seqs[i]})
+			continue
 		}
 		sd := xauthsigning.SignerData{ChainID: cid, AccountNumber: a.Num, Sequence: t.Seqs[i]}
 		s, err := clienttx.SignWithPrivKey(mode, sd, b, a.Priv, e.TxCfg, t.Seqs[i])
